@@ -38,6 +38,13 @@ BASES = [
     # the same parameter declared identically in the blocks of two components (accepted: identical definitions)
     [("parameters", "A", ["g=2.0", "a=1.5"]), ("parameters", "B", ["g=2.0", "b=3.0"]), ("states", "A", ["x=1.0"]), ("states", "B", ["y=2.0"]),
      ("expr", "A", ["dx_dt = -g*x*a + y"]), ("expr", "B", ["dy_dt = -g*y*b + x"])],
+    # a shared declaration that carries its unit / description in one block only
+    [("parameters", "fast", ['g_K=ScalarParam(0.3, unit="mS")', "kf=1.0"]), ("parameters", "slow", ["g_K=0.3", "ks=2.0"]),
+     ("states", "fast", ["x=1.0"]), ("states", "slow", ["y=2.0"]),
+     ("expr", "fast", ["dx_dt = -g_K*x*kf + y"]), ("expr", "slow", ["dy_dt = -g_K*y*ks + x"])],
+    [("parameters", "P", ["Cm=1.0", "kp=1.0"]), ("parameters", "Q", ['Cm=ScalarParam(1.0, unit="uF", description="capacitance")', "kq=2.0"]),
+     ("states", "P", ["x=1.0"]), ("states", "Q", ["y=2.0"]),
+     ("expr", "P", ["sh = Cm*x # mV", "dx_dt = -sh*kp + y"]), ("expr", "Q", ["sh = Cm*x", "dy_dt = -sh*kq + x"])],
     # names that differ only in case, in different components
     [("parameters", "fast", ["Km=2.0", "v=0.5"]), ("parameters", "slow", ["km=0.25", "V=1.5"]), ("states", "fast", ["s=1.0"]), ("states", "slow", ["S=2.0"]),
      ("expr", "fast", ["ds_dt = -v*s/(Km + s) + S"]), ("expr", "slow", ["dS_dt = -V*S/(km + S) + s"])],
